@@ -172,6 +172,18 @@ CHECKS = {
              "all quadrants/octants, and every observation (scaled integers) is judged by TLC.",
         design="DESIGN.md §5 C18",
         note=TRUST + "; std atan2 names the Pythagorean angles"),
+    "C17": dict(
+        technique="TLA+ spec Spline (exact integer Bernstein / De Casteljau / Horner forms on a dyadic lattice, segment "
+                  "selection) and the flattening stack machine; TLC checks evaluator agreement, derivative and hull laws "
+                  "over all small control polygons and the machine under every halt oracle; trace validation incl. replay "
+                  "of recorded halt answers through the machine",
+        text="TLC checks for every control polygon in {-2..2}^4 and t = k/64 that the three evaluators agree, the "
+             "derivative identity and hull containment hold and spline segments join, and explores the flattening machine "
+             "under every halt oracle to a depth bound; the real evaluators, tangents and splines are judged on seeded "
+             "polygons of five coordinate types, and approximate() is run with a recording predicate whose answers TLC "
+             "replays through the machine to judge count, order, end points, curve points and the error vectors shown.",
+        design="DESIGN.md §5 C17",
+        note=TRUST + "; recording closure and 1024 scaling in harness/src/spline.rs"),
 }
 
 NOT_YET = "check not built yet in this round (see DESIGN.md §9 for the order of work)"
